@@ -37,7 +37,9 @@ SPEC = {
         "text fields are valid UTF-8 (Rust String); tx-monitor ResponseNextTx(None) is decoded from a buffer that ends with the message",
     ],
     "explanation": "WF + RT + declared lengths are Lean theorems over all message values (Props/C22.lean); the stream ties the model "
-                   "to the code. Self-tests run: blockfetch RequestRange array(3)->array(2) (caught: labels_match_sources + "
+                   "to the code and additionally pushes the 211 reject reasons recorded in the repo's tests through the real "
+                   "Message<EraTx, TxValidationError> codec (ops `real n`, `realp v`; that codec is not modelled, its remaining encoder "
+                   "defects are known findings). Self-tests run: blockfetch RequestRange array(3)->array(2) (caught: labels_match_sources + "
                    "not-single-item VIOLATION with replay), chainsync Tip encodes block number as u32 cast (caught by correspondence + "
                    "roundtrip oracle), refactor `e.array(3)?.u16(0)?` split into two statements (quiet).",
 }
